@@ -31,6 +31,11 @@ NEG_BLOCK = ["/* see nocl */"]
 NEG_HASH = ["# see nocl", "# no cl", "# xnocl"]
 
 
+# characters that are line ends for str.splitlines() but not for the lexers (form feed, U+2028, NEL): sitting between the name and
+# the marker (in a string literal of a default argument, or in a block comment) they must not move the marker to "another line"
+SEPARATORS = ["\x0c", "\u2028", "\x85"]
+
+
 def variants(lang):
     """(id, positive?, kind, payload)"""
     out = []
@@ -42,6 +47,8 @@ def variants(lang):
         out.append(("line-before:# nocl", False, "before-line", "# nocl"))
         out.append(("line-after:# nocl", False, "after-line", "# nocl"))
         out.append(("string:# nocl", False, "string", '"# nocl"'))
+        for ch in SEPARATORS:
+            out.append((f"septrail:{ch!r}", True, "septrail", ch))
         return out
     for c in POS_LINE + POS_BLOCK:
         out.append((f"trail:{c}", True, "trail", c))
@@ -50,9 +57,15 @@ def variants(lang):
     for c in NEG_LINE + NEG_BLOCK:
         out.append((f"trail:{c}", False, "trail", c))
     out.append(("lead:/* see nocl */", False, "lead", "/* see nocl */"))
+    # a leading marker whose line directly follows a line comment / a preprocessor line (comment tokens that touch each other)
+    out.append(("lead-below-comment:/* nocl */", True, "lead-below", ("/* nocl */", "// about the next function")))
+    if lang in ("C", "C++", "C#"):
+        out.append(("lead-below-directive:/* nocl */", True, "lead-below", ("/* nocl */", "#if 1" if lang != "C#" else "#region r")))
     out.append(("line-before:// nocl", False, "before-line", "// nocl"))
     out.append(("line-after:// nocl", False, "after-line", "// nocl"))
     out.append(("string:// nocl", False, "string", '"// nocl"'))
+    for ch in SEPARATORS:
+        out.append((f"septrail:{ch!r}", True, "septrail", ch))
     return out
 
 
@@ -93,10 +106,15 @@ def apply_marker(lang, text, funcs, names, kind, payload):
         line = lines[ln]
         if kind == "trail":
             lines[ln] = line + "  " + payload
-        elif kind == "lead":
+        elif kind in ("lead", "lead-below"):
             indent = len(line) - len(line.lstrip())
-            lines[ln] = line[:indent] + payload + " " + line[indent:]
-            shift = len(payload) + 1
+            if kind == "lead-below":
+                payload_, above = payload
+                inserts.append((ln, line[:indent] + above))
+            else:
+                payload_ = payload
+            lines[ln] = line[:indent] + payload_ + " " + line[indent:]
+            shift = len(payload_) + 1
             for g in funcs:
                 if g["start"][0] == ln + 1:
                     g["start"] = (g["start"][0], g["start"][1] + shift)
@@ -123,6 +141,26 @@ def apply_marker(lang, text, funcs, names, kind, payload):
             for g in funcs:
                 if g["end"][0] == ln + 1 and g["end"][1] - 1 >= at:
                     g["end"] = (g["end"][0], g["end"][1] + shift)
+        elif kind == "septrail":
+            lead = "#" if lang == "Python" else "//"
+            if lang in ("C", "Java"):
+                lines[ln] = line + " /* " + payload + " */ " + lead + " nocl"
+            else:
+                decl = {"Python": "zz={}", "JavaScript": "zz = {}", "TypeScript": "zz: string = {}",
+                        "C++": "const char* zz = {}", "C#": "string zz = {}"}[lang].format('"' + payload + '"')
+                close = line.rfind(")")
+                if close >= 0 and "(" in line[:close]:
+                    param = decl if line[:close].rstrip().endswith("(") else ", " + decl
+                    at = close
+                elif line.rstrip().endswith("("):
+                    param, at = decl + ", ", len(line.rstrip())
+                else:
+                    return None
+                lines[ln] = line[:at] + param + line[at:] + "  " + lead + " nocl"
+                shift = len(param)
+                for g in funcs:
+                    if g["end"][0] == ln + 1 and g["end"][1] - 1 >= at:
+                        g["end"] = (g["end"][0], g["end"][1] + shift)
         elif kind == "before-line":
             indent = len(line) - len(line.lstrip())
             inserts.append((ln, line[:indent] + payload))
@@ -151,7 +189,7 @@ def eval_case(lang, spec, names, vid):
         return None, []
     text2, funcs2 = res
     problems = oracle.selfcheck_truth(lang, text2, funcs2)
-    if problems and kind == "string":
+    if problems and kind in ("string", "septrail"):
         return None, []  # the extra parameter changed how Pygments lexes the header: variant not applicable here
     if problems:
         raise core.HarnessError(f"marker placement broke the ground truth: {problems[:2]}\n{text2}")
@@ -206,7 +244,10 @@ def eval_real(lang, src, name, thorough):
     name_line = {}
     span = {}
     for i, f in enumerate(base):
-        s_off, e_off = oracle.pos_to_off(starts, f[1]), oracle.pos_to_off(starts, f[2])
+        try:
+            s_off, e_off = oracle.pos_to_off(starts, f[1]), oracle.pos_to_off(starts, f[2])
+        except IndexError:
+            return -1, []  # the baseline reports a position outside the file (C05's subject): nothing to mark here
         span[i] = (s_off, e_off)
         nt = next((off for off, ty, val in toks if s_off <= off < e_off and ty in Name and val == f[0]), None)
         name_line[i] = oracle.off_to_line(starts, nt) if nt is not None else None
@@ -254,6 +295,9 @@ def _block(block, agg):
     if block[0] == "real":
         _, lang, src, name, thorough = block
         n, viol = eval_real(lang, src, name, thorough)
+        if n < 0:
+            agg.extra["real_code_baseline_malformed(see C05)"] += 1
+            n = 0
         case = {"part": "real", "lang": lang, "src": src, "name": name, "thorough": thorough}
         agg.case(case, n > 0, f"{n} markable", sample=False)
         agg.extra["real_code_marker_cases"] += n
